@@ -40,6 +40,7 @@ struct Ctx {
     const Cfg& cfg;
     bool offgrid;
     dg_t span;  // typical coordinate magnitude in grid steps
+    std::vector<std::string> strings;  // string property values used so far in this library
 };
 
 inline dg_t frac(Ctx& c) {
@@ -317,7 +318,23 @@ inline std::vector<model::MProp> props(Ctx& c, bool element) {
             p.name = r.chance(0.7) ? names[r.below(5)] : ident(r, 1, 10);
             int nv = (int)r.range(0, 4);
             if (r.chance(0.04)) nv = (int)r.range(15, 20);
-            for (int k = 0; k < nv; k++) p.vals.push_back(any_val(r));
+            for (int k = 0; k < nv; k++) {
+                model::MVal v = any_val(r);
+                if (v.kind == 3) {
+                    // string tables are de-duplicated by the writer: equal values, and values that differ
+                    // from an earlier one in a single byte (behind a NUL, too) must stay what they are
+                    if (!c.strings.empty() && r.chance(0.2)) {
+                        v.s = c.strings[r.below(c.strings.size())];
+                        if (!v.s.empty() && r.chance(0.6)) {
+                            if (v.s.size() >= 3 && r.chance(0.5)) v.s[r.below(v.s.size() - 1)] = '\0';
+                            size_t at = r.chance(0.7) ? v.s.size() - 1 : r.below(v.s.size());
+                            v.s[at] = (char)(v.s[at] ^ (1 << r.below(7)));
+                        }
+                    }
+                    c.strings.push_back(v.s);
+                }
+                p.vals.push_back(v);
+            }
             ps.push_back(p);
         }
     }
